@@ -92,7 +92,7 @@ func (c12) Gen(r *R, tier string) any {
 	if tier == "thorough" && r.P(0.3) {
 		steps = r.Range(40, 90)
 	}
-	kinds := []string{"req", "req", "req_mutating_handler", "req_mutating_handler", "req_then_scribble_request", "dup", "req_crash", "req_crash", "req_lazy", "req_lazy", "scribble_input", "scribble_config_result", "keep_config_result", "scribble_kept", "flip_scalars", "reconf_again", "reconf_other", "edit_passed_and_reconfigure"}
+	kinds := []string{"req", "req", "req_redispatch", "req_mutating_handler", "req_mutating_handler", "req_then_scribble_request", "dup", "req_crash", "req_crash", "req_lazy", "req_lazy", "scribble_input", "scribble_config_result", "keep_config_result", "scribble_kept", "flip_scalars", "reconf_again", "reconf_other", "edit_passed_and_reconfigure"}
 	for i := 0; i < steps; i++ {
 		p.Steps = append(p.Steps, C12Step{Kind: pick(r, kinds), MW: r.Intn(k), Req: r.Intn(1 << 16), Alien: r.P(0.2), Val: r.Intn(64)})
 	}
@@ -204,6 +204,7 @@ type mutHandler struct {
 	crash    *bool
 	crashVal *any
 	quiet    *bool
+	redis    *func(r *http.Request) // while serving, dispatch a sub-request (req_redispatch)
 }
 
 // crashWriter panics at its at-th call (1-based; 0 = never).
@@ -229,6 +230,11 @@ func (w *crashWriter) Write(b []byte) (int, error) { w.tick(); return w.recWrite
 func (h mutHandler) ServeHTTP(w http.ResponseWriter, r *http.Request) {
 	*h.invoked++
 	noteWriter(w)
+	if h.redis != nil && *h.redis != nil {
+		f := *h.redis
+		*h.redis = nil // (the sub-request comes through this handler too)
+		f(r)
+	}
 	if h.quiet != nil && *h.quiet {
 		w.Header().Add("Vary", "Accept-Encoding")
 		w.Header().Set("X-Handler", "quiet")
@@ -273,6 +279,7 @@ type c12mw struct {
 	passed   *cors.Config // the value that was passed in (shared memory with the caller)
 	srv      http.Handler
 	invoked  int
+	redis    func(r *http.Request)
 	switched bool // just switched to another configuration: the next comparison goes through the suite in order
 	mutate   bool
 	quiet    bool
@@ -334,7 +341,7 @@ func (c12) Exec(plan any, c *Ctx) *Violation {
 			return nil
 		}
 		x.m.SetDebug(spec.Debug)
-		x.srv = x.m.Wrap(mutHandler{&x.mutate, c, &x.invoked, &x.crashNow, &x.crashVal, &x.quiet})
+		x.srv = x.m.Wrap(mutHandler{&x.mutate, c, &x.invoked, &x.crashNow, &x.crashVal, &x.quiet, &x.redis})
 		x.suite = probeSuite(p.Cfgs[spec.Cfg])
 		x.cfgIdx = spec.Cfg
 		mws[i] = x
@@ -477,6 +484,7 @@ func (c12) Exec(plan any, c *Ctx) *Violation {
 			vals = append(append([]string{}, scribbleValues...), miss[st.Val%len(miss)], miss[0])
 		}
 		scribbleVal = vals[st.Val%len(vals)]
+		var stepV *Violation
 		pan := catch(func() {
 			switch st.Kind {
 			case "req", "req_mutating_handler":
@@ -494,6 +502,38 @@ func (c12) Exec(plan any, c *Ctx) *Violation {
 				x.mutate = false
 				last, lastMW = &q, st.MW%len(mws)
 				step += " " + q.String()
+			case "req_redispatch":
+				// composition: while request A is being served, the wrapped handler dispatches
+				// request B through the SAME wrapped handler into a fresh writer - a sub-request
+				// or internal redirect that inherits A's context, as r.Clone / WithContext /
+				// NewRequestWithContext give. B is answered as B alone would be.
+				qa := x.suite[st.Req%len(x.suite)]
+				jb := (st.Req / 7) % len(x.suite)
+				qb := x.suite[jb]
+				var got Resp
+				done := false
+				x.redis = func(ra *http.Request) {
+					got = serveDerived(x.srv, qb, nil, &x.invoked, func(rb *http.Request) *http.Request {
+						switch st.Val % 3 {
+						case 0:
+							return rb.WithContext(ra.Context())
+						case 1:
+							return rb.Clone(ra.Context())
+						default: // the request in flight itself, rewritten
+							rc := ra.Clone(ra.Context())
+							rc.Method, rc.Header, rc.Host, rc.URL, rc.Body = rb.Method, rb.Header, rb.Host, rb.URL, rb.Body
+							rc.Proto, rc.ProtoMajor, rc.ProtoMinor, rc.TLS, rc.RequestURI = rb.Proto, rb.ProtoMajor, rb.ProtoMinor, rb.TLS, rb.RequestURI
+							return rc
+						}
+					})
+					done = true
+				}
+				serveWith(x.srv, qa, nil, &x.invoked)
+				x.redis = nil
+				c.hit("F17_sub_request_through_the_same_chain")
+				if done && got != x.base[jb] {
+					stepV = &Violation{Class: "behaviour-changed", Key: "redispatch", Detail: fmt.Sprintf("while %s was being served, the wrapped handler dispatched %s through the same chain (context inherited, fresh writer): answered with %s; the same request alone is answered with %s", qa, qb, got, x.base[jb])}
+				}
 			case "req_lazy":
 				// F11: the wrapped handler sets a header of its own and writes nothing, so the
 				// head of this response is serialised only when the chain has returned -
@@ -655,6 +695,9 @@ func (c12) Exec(plan any, c *Ctx) *Violation {
 		})
 		if pan != "" {
 			return &Violation{Class: "panic", Key: st.Kind, Detail: step + ": " + pan}
+		}
+		if stepV != nil {
+			return stepV
 		}
 		if abandon {
 			c.hit("generator_rejected")
